@@ -1905,6 +1905,9 @@ class _AnsiSettingPoint:
             for format in formats:
                 ansi_fmt_enum = None
                 try:
+                    if not format.isascii():
+                        # (upper() maps some non-ASCII characters to ASCII letters - those are not part of any name)
+                        raise KeyError(format)
                     ansi_fmt_enum = AnsiFormat[format.upper().replace(' ', '_').replace('-', '_')]
                 except KeyError:
                     rgb_format_list = __class__._parse_rgb_string(format)
